@@ -60,6 +60,12 @@ def gen_cases(tier, seed):
         size = r.choice([0, 1, 4095, 4096, 4097, 100000, 1 << 20])
         yield {"kind": "file", "size": size, "segs": None, "sync": r.random() < 0.5, "fs": "tmpfs" if r.random() < 0.3 else "ext4", "seed": r.randrange(1, 1 << 30),
                "first0": True, "lastbyte": True, "dense": True}
+    for i in range(4 if tier == "quick" else 20):
+        # logical offsets above 4 GiB (32-bit arithmetic would truncate them); sparse, so cheap
+        b0 = (4 << 30) + r.choice([0, 4096, 123456789])
+        segs = [[8192, 4096], [b0, 5000], [b0 + (1 << 20), 1]]
+        yield {"kind": "file", "size": segs[-1][0] + segs[-1][1] + r.choice([0, 77]), "segs": segs, "sync": r.random() < 0.5, "fs": r.choice(["ext4", "tmpfs"]),
+               "seed": r.randrange(1, 1 << 30), "first0": False, "lastbyte": False, "dense": False, "huge": True}
     yield {"kind": "merge-exhaustive", "U": 14 if tier == "quick" else 18}
     for k in range(4 if tier == "quick" else 32):
         yield {"kind": "merge-random", "seed": r.randrange(1, 1 << 30), "n": 20000 if tier == "quick" else 200000}
@@ -148,7 +154,7 @@ def run_file(case, res):
         res["counters"]["fs:" + case["fs"]] = 1
         n = len(written)
         res["evals"].append({"key": [case["fs"], "0" if n == 0 else "1-3" if n <= 3 else "4-32" if n <= 32 else ">32", case["first0"], case["lastbyte"], case["sync"],
-                                     case["size"] % PAGE == 0, case["dense"], bool(case.get("touching"))],
+                                     case["size"] % PAGE == 0, case["dense"], bool(case.get("touching")), bool(case.get("huge"))],
                              "sample": {"fs": case["fs"], "size": case["size"], "written": written[:5], "n_written": n, "synced": case["sync"],
                                         "extents": (j["extents"] or [])[:5] if not isinstance(j["extents"], dict) else j["extents"],
                                         "n_extents": len(j["extents"]) if isinstance(j["extents"], list) else None, "segments": j["segments"][:5]}})
